@@ -76,7 +76,11 @@ def build_index(funcs, repo=REPO):
             trait, ty = m.group(1), m.group(2)
             tk = type_key(ty)
             if trait:
-                index["<%s as %s>::%s" % (tk, type_key(trait), method)] = f
+                k = "<%s as %s>::%s" % (tk, type_key(trait), method)
+                if k in index and index[k] is not f:
+                    # two impls whose keys coincide after path stripping (From<std::io::Error> / From<walkdir::Error>): resolved at the call site by parameter type
+                    index.setdefault("?" + k, [index[k]]).append(f)
+                index[k] = f
             else:
                 index["%s::%s" % (tk, method)] = f
         else:
